@@ -17,6 +17,78 @@ func c10(c *Ctx) {
 	r.Explanation = "Partial: the structure that implements the duplicate marker. (U1) in handlePostMessage every path to the commit call or to the leader hand-off takes the false edge of LastPostMessage(session) == req.ClientMessageId, the short-cut edge acknowledges without proposing, and the same request field flows into the proposal; (U2) the state machine records the marker before processing a client line and also for entries skipped as message of death; (U3) Session.lastClientMessageId has exactly the expected writers/readers and is written from the entry's ClientMessageId; (U4) the marker and the message field survive snapshot and every log encoding. Whether a retry actually arrives after the first copy was applied on the handling replica is a schedule question and not decided."
 	r.Rules = []string{"C10.U1 handler short-cut", "C10.U2 record before processing and for tombstones", "C10.U3 single writer, right value", "C10.U4 marker is replicated"}
 
+	// U1b: the marker accessor returns the stored marker for every session it finds (no further condition)
+	if lpm := c.MustFunc("ircserver.(*IRCServer).LastPostMessage"); lpm != nil {
+		info := lpm.Info()
+		g := c.Graph(lpm)
+		marker := c.P.Field("ircserver", "Session", "lastClientMessageId")
+		sessions := c.P.Field("ircserver", "IRCServer", "sessions")
+		var okObj types.Object
+		ast.Inspect(lpm.Body(), func(n ast.Node) bool {
+			as, ok := n.(*ast.AssignStmt)
+			if !ok || len(as.Lhs) != 2 || len(as.Rhs) != 1 {
+				return true
+			}
+			if ie, ok := ast.Unparen(as.Rhs[0]).(*ast.IndexExpr); ok {
+				if se, ok := ast.Unparen(ie.X).(*ast.SelectorExpr); ok && astx.FieldSel(info, se) == sessions && sessions != nil {
+					if id, ok := as.Lhs[1].(*ast.Ident); ok {
+						okObj = astx.Obj(info, id)
+					}
+				}
+			}
+			return true
+		})
+		nRet := 0
+		for _, rv := range g.Returns() {
+			rs := rv.Node.(*ast.ReturnStmt)
+			if len(rs.Results) != 1 {
+				continue
+			}
+			nRet++
+			isMarker := false
+			ast.Inspect(rs.Results[0], func(m ast.Node) bool {
+				if se, ok := m.(*ast.SelectorExpr); ok && astx.FieldSel(info, se) == marker && marker != nil {
+					isMarker = true
+				}
+				return true
+			})
+			if isMarker {
+				continue
+			}
+			// a return of anything else must not be reachable from the edge on which the session was found
+			okAll := okObj != nil
+			for _, v := range g.V {
+				for _, e := range v.Succ {
+					if e.Cond == nil || e.Tag != nil {
+						continue
+					}
+					// can this edge be taken although the session was found? (some alternative of its condition lacks !ok)
+					// clausesOf yields a conjunction of disjunctive clauses: the edge implies !ok iff some clause consists of !ok only
+					found := false
+					if astx.Mentions(info, e.Cond, okObj) {
+						found = true
+						for _, cl := range c.clausesOf(info, lpm.Node(), e.Cond, e.Val, 0) {
+							onlyNotOK := len(cl) > 0
+							for _, l := range cl {
+								if id, ok := ast.Unparen(l.E).(*ast.Ident); !ok || astx.Obj(info, id) != okObj || l.Pos {
+									onlyNotOK = false
+								}
+							}
+							if onlyNotOK {
+								found = false
+							}
+						}
+					}
+					if found && (e.To == rv.ID || g.Reach(e.To, nil, nil)[rv.ID]) {
+						okAll = false
+					}
+				}
+			}
+			r.Check(okAll, "C10.U1", lpm.Name(), "a found session always reports its marker", c.P.Pos(rs.Pos()), "returns other than the marker only where the session look-up failed",
+				"LastPostMessage returns something else than the stored marker for some sessions that exist (an extra condition next to the look-up): their retried POSTs are not recognised as duplicates")
+		}
+		r.Check(nRet >= 2, "C10.U1", lpm.Name(), "returns found", c.P.Pos(lpm.Node().Pos()), itoa(nRet), "unexpected shape of LastPostMessage")
+	}
 	// U1
 	if fi := c.MustFunc("api.(*HTTP).handlePostMessage"); fi != nil {
 		r.Functions++
